@@ -36,7 +36,7 @@ func init() {
 	Register(&Prop{
 		ID:          "C15",
 		Gomaxprocs:  2,
-		Rule:        "workspaces of 3-4 journals from G with shared accounts, payees (with different posting templates in different files), commodities (declared with different formats in two files) and tags, transactions out of balance in >=2 commodities, all files open; a fixed request list (published diagnostics of every document, completion in account/payee/commodity/tag-name/tag-value context with an empty fragment so that ties in the ranking occur, references and definition on shared symbols, document and workspace symbols, inline completion for a payee with two templates, hover, formatting) is answered 50 times by one server, by 12 (quick) / 50 (thorough) fresh servers in the same process, by one server that reached the same texts through an edit (include directives of the root re-ordered) and by 4/8 fresh processes (child processes of the harness; Go seeds map iteration per map and per process). Oracle: exactly one distinct canonical serialisation per request. Excluded: semantic-token result ids, the three clock-dependent date items. Non-trivial = every workspace (>=2 files share names); distinct by workspace hash.",
+		Rule:        "workspaces of 3-4 journals from G with shared accounts, payees (with different posting templates in different files), commodities (declared with different formats in two files) and tags, transactions out of balance in >=2 commodities, all files open; a fixed request list (published diagnostics of every document, completion in account/payee/commodity/tag-name/tag-value context with an empty fragment so that ties in the ranking occur, references and definition on shared symbols, document and workspace symbols, inline completion for a payee with two templates, hover, formatting) is answered 50 times by one server, by 12 (quick) / 50 (thorough) fresh servers in the same process, by one server that reached the same texts through an edit (include directives of the root re-ordered), by four servers that open and then re-send (unchanged) all documents plus two documents outside the include tree (one including a file of declarations, one using the names declared there) in forward, reverse and two random orders, whose final diagnostics per document must agree, and by 4/8 fresh processes (child processes of the harness; Go seeds map iteration per map and per process). Oracle: exactly one distinct canonical serialisation per request. Excluded: semantic-token result ids, the three clock-dependent date items. Non-trivial = every workspace (>=2 files share names); distinct by workspace hash.",
 		Notes:       []string{"history dates are <= 2019 so that clock-dependent completion items cannot collide with them"},
 		Cases:       c15Counts,
 		MustObserve: []string{"workspaces", "requests", "responses_compared", "fresh_processes"},
@@ -333,6 +333,65 @@ func runC15(c *Ctx, idx int64) {
 			}
 			c.Count("servers_with_edit_history", 1)
 			note("server that reached the same texts through an edit (include directives re-ordered)", res)
+		}
+	}
+	// (b'') the same documents opened and re-sent (unchanged text) in different orders: the last
+	// diagnostics of every document are a function of the open texts, not of the order in which the
+	// analyses ran. Two further documents are outside the root's include tree: one includes a file
+	// of declarations, the other uses the names declared there without including it.
+	{
+		odir := filepath.Join(filepath.Dir(dir), "order", "ws")
+		os.MkdirAll(odir, 0o755)
+		w.Write(odir)
+		exNames := []string{"zz-scratch.journal", "zz-project.journal"}
+		exTexts := []string{
+			"2018-03-01 scratch\n    project:beta  1 XYZ\n    assets:shared:cash\n",
+			"include zz-projdecl.journal\n\n2018-03-02 project\n    project:beta  2 XYZ\n    project:alpha\n",
+		}
+		os.WriteFile(filepath.Join(odir, "zz-projdecl.journal"), []byte("account project:beta\naccount project:alpha\ncommodity 1.00 XYZ\n"), 0o644)
+		for i, n := range exNames {
+			os.WriteFile(filepath.Join(odir, n), []byte(exTexts[i]), 0o644)
+		}
+		names := append(append([]string(nil), w.Names...), exNames...)
+		texts := append(append([]string(nil), w.Texts...), exTexts...)
+		n := len(names)
+		fwd := make([]int, n)
+		rev := make([]int, n)
+		for i := range fwd {
+			fwd[i], rev[i] = i, n-1-i
+		}
+		pr := NewRNG(c.Seed, uint64(idx), 91)
+		orders := [][]int{fwd, rev, pr.Perm(n), pr.Perm(n)}
+		for oi, ord := range orders {
+			ps := NewSession(odir, SessOpt{Root: w.Root})
+			ps.Drain()
+			for _, i := range ord {
+				ps.OpenWait(ps.URI(names[i]), texts[i])
+			}
+			ps.Drain()
+			resend := ord
+			if oi == 3 {
+				resend = orders[2] // opened in one order, re-sent in another
+			}
+			for _, i := range resend {
+				u := ps.URI(names[i])
+				have := ps.Stub.PubCount(u)
+				ps.ChangeFull(u, texts[i])
+				ps.WaitPub(u, have)
+			}
+			ps.Drain()
+			res := map[string]string{}
+			for i := range names {
+				var ds []string
+				if pub := ps.Stub.LastPub(ps.URI(names[i])); pub != nil {
+					for _, d := range pub.Diagnostics {
+						ds = append(ds, DiagKey(d))
+					}
+				}
+				res[fmt.Sprintf("diagnostics-after-resend(%s)", names[i])] = strings.Join(ds, "\n")
+			}
+			c.Count("servers_with_permuted_analysis_order", 1)
+			note(fmt.Sprintf("server that opened and re-sent the documents in the order %v", ord), res)
 		}
 	}
 	// (c) fresh processes
